@@ -60,6 +60,7 @@ class Ctx:
     # ---------------- Coq ----------------
     def coq_build(self):
         """Incremental full .vo build of the development (no-op when up to date)."""
+        sh("python3 %s" % os.path.join(ROOT, "tools", "gen_shared.py"))
         if not os.path.exists(os.path.join(COQ, "Makefile")):
             sh("coq_makefile -f _CoqProject -o Makefile", cwd=COQ)
         rc, out = sh("timeout 3000 make -j16", cwd=COQ)
